@@ -42,9 +42,9 @@ CHECKS = {
     "C02": dict(level="exploration", jobs=[J("TestC02", (4, 1500), (16, 12000), steps=45)],
                 rule="one case = one generated history biased to delete-newest/delete-all/empty batch/reopen; after every Publish the returned offset, the written-back offsets, and after every step NextOffset/Sync are compared with the model counter (which never decreases, so reuse is a mismatch); non-trivial = history contains (tail-or-all delete) -> reopen -> publish; distinct by trace hash. Dimensions drawn per case or step in every history job: index configuration; rollover size (incl. exactly the head's size, +-1); NewSegmentsVersion/KeepRewriteVersion/EagerVersionMigrate/Check/Recover/AutoSync re-drawn at every open; index files removed and segment files replaced by symbolic links while closed; directory name (glob/shell characters) and spelling; message times monotone / arbitrary / zero (stamped by the log) / far future / with nanoseconds and a zone / before 1970; keys incl. nil, empty, hash collisions and keys of 300, 5000 and 70000 bytes; values up to 70 KB; a rejected (too big) message at a drawn position of a batch; offsets and bounds up to MaxInt64; nil map/slice; Multi calls with the library's back-off or one that fails / cancels; the invariant after every step or only every n-th (lazy state); read-only sessions incl. GC; a missing key/value is handed out the same way (nil or empty) every time"),
     "C03": dict(level="exploration", jobs=[J("TestC03", (4, 1000), (16, 8000), steps=40)],
-                rule="one case = one history; after every step Consume is called at every offset in [-5, NextOffset+2] with maxCount cycling through {1,2,3,5,8,40} and checked with a validity predicate over the model, plus the feed-back iteration from OffsetOldest; non-trivial = a sweep happened on a state with >=2 segments and at least one queried offset inside a hole; distinct by trace hash. Dimensions drawn per case or step in every history job: index configuration; rollover size (incl. exactly the head's size, +-1); NewSegmentsVersion/KeepRewriteVersion/EagerVersionMigrate/Check/Recover/AutoSync re-drawn at every open; index files removed and segment files replaced by symbolic links while closed; directory name (glob/shell characters) and spelling; message times monotone / arbitrary / zero (stamped by the log) / far future / with nanoseconds and a zone / before 1970; keys incl. nil, empty, hash collisions and keys of 300, 5000 and 70000 bytes; values up to 70 KB; a rejected (too big) message at a drawn position of a batch; offsets and bounds up to MaxInt64; nil map/slice; Multi calls with the library's back-off or one that fails / cancels; the invariant after every step or only every n-th (lazy state); read-only sessions incl. GC; a missing key/value is handed out the same way (nil or empty) every time"),
+                rule="one case = one history; after every step Consume is called at every offset in [-5, NextOffset+2] with maxCount cycling through {1,2,3,5,8,40} and checked with a validity predicate over the model, plus the feed-back iteration from OffsetOldest, plus lone probe operations (one Consume at one pre-drawn offset between two other operations, same predicate); non-trivial = a sweep happened on a state with >=2 segments and at least one queried offset inside a hole; distinct by trace hash. Dimensions drawn per case or step in every history job: index configuration; rollover size (incl. exactly the head's size, +-1); NewSegmentsVersion/KeepRewriteVersion/EagerVersionMigrate/Check/Recover/AutoSync re-drawn at every open; index files removed and segment files replaced by symbolic links while closed; directory name (glob/shell characters) and spelling; message times monotone / arbitrary / zero (stamped by the log) / far future / with nanoseconds and a zone / before 1970; keys incl. nil, empty, hash collisions and keys of 300, 5000 and 70000 bytes; values up to 70 KB; a rejected (too big) message at a drawn position of a batch; offsets and bounds up to MaxInt64; nil map/slice; Multi calls with the library's back-off or one that fails / cancels; the invariant after every step or only every n-th (lazy state); read-only sessions incl. GC; a missing key/value is handed out the same way (nil or empty) every time"),
     "C04": dict(level="exploration", jobs=[J("TestC04", (4, 1000), (16, 8000), steps=40)],
-                rule="one case = one history; after every step Get at every offset in [0, NextOffset+2] and both relative offsets, classified live/deleted/unassigned by the model, and compared with Consume(offset,1); non-trivial = a deleted offset was queried on a state with >=2 segments; distinct by trace hash. Dimensions drawn per case or step in every history job: index configuration; rollover size (incl. exactly the head's size, +-1); NewSegmentsVersion/KeepRewriteVersion/EagerVersionMigrate/Check/Recover/AutoSync re-drawn at every open; index files removed and segment files replaced by symbolic links while closed; directory name (glob/shell characters) and spelling; message times monotone / arbitrary / zero (stamped by the log) / far future / with nanoseconds and a zone / before 1970; keys incl. nil, empty, hash collisions and keys of 300, 5000 and 70000 bytes; values up to 70 KB; a rejected (too big) message at a drawn position of a batch; offsets and bounds up to MaxInt64; nil map/slice; Multi calls with the library's back-off or one that fails / cancels; the invariant after every step or only every n-th (lazy state); read-only sessions incl. GC; a missing key/value is handed out the same way (nil or empty) every time"),
+                rule="one case = one history; after every step Get at every offset in [0, NextOffset+2] and both relative offsets, classified live/deleted/unassigned by the model, and compared with Consume(offset,1), plus lone probe operations (one Get at one pre-drawn offset between two other operations); non-trivial = a deleted offset was queried on a state with >=2 segments; distinct by trace hash. Dimensions drawn per case or step in every history job: index configuration; rollover size (incl. exactly the head's size, +-1); NewSegmentsVersion/KeepRewriteVersion/EagerVersionMigrate/Check/Recover/AutoSync re-drawn at every open; index files removed and segment files replaced by symbolic links while closed; directory name (glob/shell characters) and spelling; message times monotone / arbitrary / zero (stamped by the log) / far future / with nanoseconds and a zone / before 1970; keys incl. nil, empty, hash collisions and keys of 300, 5000 and 70000 bytes; values up to 70 KB; a rejected (too big) message at a drawn position of a batch; offsets and bounds up to MaxInt64; nil map/slice; Multi calls with the library's back-off or one that fails / cancels; the invariant after every step or only every n-th (lazy state); read-only sessions incl. GC; a missing key/value is handed out the same way (nil or empty) every time"),
     "C08": dict(level="exploration", jobs=[J("TestC08Windows", (4, 1200), (16, 15000), timeout=(900, 5400)), J("TestC08Stress", (4, 3), (16, 10), race=True, kind="plain", timeout=(900, 5400)),
                                                  J("TestC08Windows", (4, 300), (16, 4000), race=True, env={"VF_TIMED": "1"}, timeout=(900, 5400)),
                                                  J("TestC08Duets", (4, 0), (12, 0), race=True, kind="plain", timeout=(900, 5400)),
@@ -78,7 +78,7 @@ CHECKS = {
                 rule="one evaluation = one complete schedule of a cooperative scheduler inside a testing/synctest bubble: up to 8 waiters (ConsumeBlocking / ConsumeByKeyBlocking, raw and typed wrappers, offsets below/at/above NextOffset and relative), up to 3 publishers (incl. empty batches), cancellations and Close; every goroutine parks at each pause point of the notifier and the blocking wrappers, and each step (resume one parked goroutine / start a call / cancel / Close) is a rapid draw; additionally the complete choice tree is enumerated with an odometer for W=1,P=1 (plain, +cancel, +close, typed), W=1,P=0 (+cancel+close), W=1,P=2 (thorough: W=2,P=1 and W=2,P=1+close), and seeded free-running mixes run without pauses; oracle at every step: a returned waiter had a reason (offset below NextOffset / relative / overlapping Publish, Close, cancel), its result equals what Consume returned at the moment it left the wait, and at FULL quiescence no waiter is blocked that a completed Publish passed, whose context ended, or after Close completed; non-trivial = a Publish-notify, Close or cancel step was taken while a waiter stood between the fast-path check and its park; distinct by (configuration, choice sequence). Up to three other calls on the same handle (Sync, GC, Stat, NextOffset, Delete, Consume, Backup) may be placed anywhere in a schedule (also in three exhaustive configurations): no waiter may notice them; the wrapper is also opened on a non-empty log. Macro job: the same scheduler driven by macro steps drawn per case (start a waiter/publisher, run task i until it stands at pause point p, let task i finish or park, cancel task i), which keeps one goroutine parked at one point while others run through many - a uniformly random walk over single resumes practically never does",
                 level_note="interleavings at the granularity of the listed pause points (verif build tag); Go's select between two simultaneously ready wake-up causes is resolved by the runtime, not by the scheduler; virtual time, no wall clock"),
     "C19": dict(level="exploration", jobs=[J("TestC19Handles", (2, 5000), (8, 40000)), J("TestC19Hist", (2, 600), (8, 5000), steps=35)],
-                rule="handles job: one case = a sequence of open-RW/open-RO/close/publish/read-only queries/failing opens (flipped index flags, corrupt index with Check, missing directory) over three handle slots, checked against the lock matrix; history job: read-only sessions (1-3 handles, optional index removal) inside C01-style histories with full observation against the model, ErrReadonly, byte comparison of *.log; non-trivial = a failed open followed by a successful one, or >=2 simultaneous read-only handles (handles job) / a read-only session on a multi-segment log (history job); distinct by case hash. Handles job also: Backup (into the handle's own directory under four spellings, into another directory), GC and Sync on read-only handles with byte comparison of *.log; read-only open of a damaged head with Check/Recover; reads that fail on a damaged segment, the file repaired, reads again, Close, then a read-write Open must succeed; an Open parked inside its lock acquisition (the lock file made a FIFO) while the writer publishes into new segments and closes must see the writer's final state"),
+                rule="handles job: one case = a sequence of open-RW/open-RO/close/publish/read-only queries/failing opens (flipped index flags, corrupt index with Check, missing directory, a stray file that fails the segment listing after the lock was taken) over three handle slots, checked against the lock matrix; history job: read-only sessions (1-3 handles, optional index removal) inside C01-style histories with full observation against the model, ErrReadonly, byte comparison of *.log; non-trivial = a failed open followed by a successful one, or >=2 simultaneous read-only handles (handles job) / a read-only session on a multi-segment log (history job); distinct by case hash. Handles job also: Backup (into the handle's own directory under four spellings, into another directory), GC and Sync on read-only handles with byte comparison of *.log; read-only open of a damaged head with Check/Recover; reads that fail on a damaged segment, the file repaired, reads again, Close, then a read-write Open must succeed; an Open parked inside its lock acquisition (the lock file made a FIFO) while the writer publishes into new segments and closes must see the writer's final state"),
     "C15": dict(level="exploration", jobs=[J("TestC15", (4, 1500), (16, 12000), steps=40)],
                 rule="one case = one history biased to FindBy*/TrimBy* (offset, count, size on single-version logs, age) in single, Multi and MultiOffsets variants with bounds below/inside/above the live range; prefix and bound predicates from the property; non-trivial = a trim removed messages on a state with >=2 segments; distinct by trace hash. Dimensions drawn per case or step in every history job: index configuration; rollover size (incl. exactly the head's size, +-1); NewSegmentsVersion/KeepRewriteVersion/EagerVersionMigrate/Check/Recover/AutoSync re-drawn at every open; index files removed and segment files replaced by symbolic links while closed; directory name (glob/shell characters) and spelling; message times monotone / arbitrary / zero (stamped by the log) / far future / with nanoseconds and a zone / before 1970; keys incl. nil, empty, hash collisions and keys of 300, 5000 and 70000 bytes; values up to 70 KB; a rejected (too big) message at a drawn position of a batch; offsets and bounds up to MaxInt64; nil map/slice; Multi calls with the library's back-off or one that fails / cancels; the invariant after every step or only every n-th (lazy state); read-only sessions incl. GC; a missing key/value is handed out the same way (nil or empty) every time"),
     "C16": dict(level="exploration", jobs=[J("TestC16", (4, 1500), (16, 12000), steps=40)],
